@@ -20,6 +20,8 @@ CLAIMED = {
          'linearizability over schedules is NOT decided; decided are necessary critical-section conditions: check-then-act under one slice write guard, requests created under the per-cluster guard complete under it, COW merge under per-cluster and L2 slice write guards, eviction prefers unused entries', 'C06'),
  'C07': ('held-lock dataflow, mode-aware lock-order cycle search, guard-across-await scan, insert/lookup typestate',
          'deadlock clause: lock-order relation acyclic (mode aware, one thread per device), no self re-acquisition, no blocking guard across awaits, no suspension between cache insert and re-lookup; livelock/termination not decided', 'C07'),
+ 'C15': ('bit-provenance abstract interpretation of accessor and packing code against the specification bit tables; layout and configuration scans; field-use agreement of inverse key functions',
+         'accessor bit fields, compressed descriptor split (13 cluster sizes), refcount get/set for 7 widths x 16 indices, byte-order symmetry, header layout and serialiser configuration, backing-name offset provenance; arithmetic results and round trips not decided', 'C15'),
  'C17': ('error-value def-use discipline + restore/undo typestate in the fault model',
          'no dropped Qcow2Result; flags/queue entries restored on error exits; rollback and zero-write fallback on failing requests; state after retries not decided', 'C17'),
  'C08': ('guard provenance + no-suspension scan/increment rule, control/data dependence of the free-hint updates, path-sensitive run-restart pairing',
